@@ -18,6 +18,11 @@ evaluator (the `do_eval` of the global calc function):
        left: a `+`/`-` node under `*`/`/`; right: a `+`/`-` node under `*`/`/`, any `+`/`-` node under
        `-`, any `*`/`/` node under `/`.  (A redundant pair of parentheses is not a violation; a missing
        one changes the value of the calculation.)
+ (iv)  the operator is never dropped: the writer prints a `+` node whose operand is "join-like" as a
+       concatenation without operator.  A binary node may count as join-like only if its own operator is
+       `+`: the method that answers this for a `BinOp` (reached from the `BinOp(x) => x.…()` arm of the
+       value-level test) is evaluated three-valued with `self.op` set to every other operator and unknown
+       operands and must be definitely false — otherwise `1px + foo * 2` is written `1pxfoo * 2`.
 """
 from lib import mir, sym
 
@@ -28,6 +33,7 @@ def run(ctx, F):
     prog = F.lib
     S = sym.Sym(prog, inline_depth=0)
     paren_tables(ctx, F)
+    join_only_plus(ctx, F)
     cands = [b for d, b in prog.bodies.items() if d.startswith("sass::functions::math::css::") and d.endswith("::do_eval")]
     if len(cands) != 1:
         ctx.anchor_lost("calculation evaluator (math::css::..::do_eval)", f"found {len(cands)}")
@@ -82,6 +88,55 @@ def needs_paren(side, op, inner):
         if op == "Div" and inner not in add:
             return True
     return False
+
+
+def join_only_plus(ctx, F):
+    """(iv)"""
+    from lib import ast as A, guardeval
+    tree = F.ast
+    try:
+        ev = guardeval.Eval(tree, "value::operator::Operator")
+    except guardeval.Unknown as e:
+        ctx.anchor_lost("Operator enum", str(e))
+        return
+    # the value-level test: a function whose match has an arm `..::BinOp(x) => x.<m>()`
+    meths = set()
+    for f in tree.fn_list:
+        if not f["path"].startswith("css::"):
+            continue
+        for n in A.walk(f["body"]):
+            if n.get("e") != "match":
+                continue
+            arms = n["arms"]
+            if not any(A.showpat(a["pat"]).replace(" ", "").endswith("True|Self::False") or "::True" in A.showpat(a["pat"]) for a in arms):
+                continue
+            for a in arms:
+                p_ = a["pat"]
+                if p_.get("p") == "tstruct" and p_["v"].endswith("BinOp") and len(p_["xs"]) == 1 and p_["xs"][0].get("p") == "bind":
+                    b = A.strip(a["body"])
+                    if b.get("e") == "mcall" and A.show(b["recv"]).strip() == p_["xs"][0]["n"] and not b["args"]:
+                        meths.add(b["m"])
+    if len(meths) != 1:
+        ctx.anchor_lost("join-like test of a nested BinOp", f"methods found: {sorted(meths)}")
+        return
+    m = next(iter(meths))
+    fs = [f for f in tree.fn_list if f["path"].startswith("css::binop::") and f["path"].endswith(f"<BinOp>::{m}")]
+    if len(fs) != 1:
+        ctx.anchor_lost(f"BinOp::{m}", f"found {len(fs)}")
+        return
+    f = fs[0]
+    bad = []
+    for op in ev.variants:
+        if op == "Plus":
+            continue
+        v = ev.run3(f["body"], {"self.op": ("V", op), "__module__": "css::binop"})
+        if v is not False:
+            bad.append(op)
+    key = f"BinOp::{m}: only a `+` node is join-like"
+    if not bad:
+        ctx.ok("F5-join-only-plus", key, f"{len(ev.variants) - 1} other operators evaluated: definitely false")
+    else:
+        ctx.fail("F5-join-only-plus", key, f"BinOp::{m} is not definitely false for the operators {bad[:6]}: a `+` whose operand is such a node with an identifier leaf is written as a concatenation, dropping the `+` (e.g. `1px + foo * 2` -> `1pxfoo * 2`)", where=f["path"])
 
 
 def paren_tables(ctx, F):
